@@ -16,10 +16,14 @@ import aiohomekit.protocol as P
 ID = "C03"
 RULE = ("honest pairings over random codes/identifiers/keys/salts; adversarial: wrong-code accessory, bit flips of the M4 proof, M4 with error/foreign state/no proof, M6 encrypted or signed "
         "with another key, signature over another identifier/key, removed signature/identifier/key, bit and byte corruptions of M6, truncated M6, wrong-length key, M6 replayed from another "
-        "exchange; M2 with missing fields. non-trivial = distinct (mutation class, outcome class)")
+        "exchange; M2 with missing fields; unpinned histories of several pair-setups in one process (honest, wrong-code, one altered reply, byte-for-byte replays of an earlier exchange's "
+        "M2/M4/M6; two exchanges interleaved) with every single-bit flip, sampled byte values and length changes of the State item of M2/M4/M6, bit/byte/length corruptions and removal of every "
+        "other field (outer and inside M6) and added Error items - through the generators with replies handed over as lists and as IP/CoAP decode them (expected filter), IpDiscovery over "
+        "HTTP, CoAPDiscovery and the BLE GATT state-machine driver. non-trivial = distinct (mutation class, outcome class)")
 TRUSTED = ["reference SRP server and accessory (harness/refacc.py)", "Lean Real crypto (validated per run)"]
 ASSUMPTIONS = ["SRP values themselves are C02's subject: the model takes K and the expected server proof from the real SrpClient of the same exchange",
-               "ephemerals pinned by patching os.urandom (srp) and Ed25519PrivateKey.generate (protocol)",
+               "ephemerals pinned by patching os.urandom (srp) and Ed25519PrivateKey.generate (protocol) in the differential streams only; the history streams leave the library's random source alone and "
+               "observe freshness at the accessory (the public value A of M3 never repeats within a history)",
                "unforgeability / AEAD integrity assumed; proved: the logic (return implies checks, signature binds id and key) and agreement with the HAP 5.6 accessory"]
 EXPLANATION = "Lean theorems C03_* over the model of perform_pair_setup_part1/2 with abstract crypto; byte-exact differential tie on M5 and the returned record; adversarial streams judged by an independent accessory"
 
@@ -237,6 +241,7 @@ def run(ctx: Ctx, driver: Driver):
     ctx.sample({k: (v if len(str(v)) < 300 else str(v)[:300] + "...") for k, v in cases[0].items()})
     # wrong-code accessory: the model is given the reference server's K/M2 which the real client does not share - the outcome (AuthenticationError at M4) must still agree
     discovery_level(ctx, rng, rb)
+    history_level(ctx, rng, rb)
     compare_with_model(ctx, "setup", cases, outs, lines, driver, canon=canon_wrongcode)
     compare_with_model(ctx, "m5", m5cases, m5outs, m5lines, driver)
 
@@ -357,5 +362,578 @@ def canon_wrongcode(s):
     return s
 
 
+# ------------------------------------------------------------------------------------------------------------------
+# Histories of pair-setups in ONE process, nothing pinned: every step is one pairing attempt of the real library
+# against a peer written here - a conformant accessory, an accessory programmed with another code, a conformant
+# accessory ONE of whose replies is altered in one field, or an impostor that only plays back what an accessory
+# answered in an earlier step.  Entry points: the generators as a transport drives them (replies handed over as
+# decoded lists - the BLE way - or re-encoded and decoded with the expected-type filter the generator yielded, as
+# post_tlv / CoAP do), IpDiscovery over HTTP on the in-memory network, CoAPDiscovery with aiocoap's context replaced,
+# and the BLE GATT driver drive_pairing_state_machine on a scripted pairing characteristic.
+# Oracles (property text + the peers' own bookkeeping only): a conformant accessory is paired and the record is the
+# identity it presented / the controller key it accepted; every other step fails with an error and returns nothing;
+# the controller's SRP public value A is new in every exchange of a history (it is what binds M4/M6 to the exchange).
+
+FIELD = {1: "id", 2: "salt", 3: "pubkey", 4: "proof", 5: "encdata", 6: "state", 7: "error", 10: "sig"}
+ENTRIES = ["gen-list", "gen-wire", "ip", "coap", "ble-gatt"]
+PINS = ["031-45-154", "111-22-333", "482-19-307"]
+ACC_IDS = ["12:34:56:00:01:0A", "3c:5a:b4:00:1f:e2", "aB:cd:EF:01:23:45"]
+_VERIFIER = {}
+
+
+def _srp_server(pin, salt, b):
+    """refacc.SrpServer whose verifier g^x is computed once per (code, salt) - an accessory stores salt and verifier"""
+    base = _VERIFIER.get((pin, salt))
+    if base is None:
+        base = _VERIFIER[(pin, salt)] = refacc.SrpServer(pin, salt, 1)
+    srv = refacc.SrpServer.__new__(refacc.SrpServer)
+    srv.salt, srv.I, srv.pin, srv.x, srv.v, srv.b = base.salt, base.I, base.pin, base.x, base.v, b
+    srv.B = (refacc.K_MULT * srv.v + pow(refacc.G, b, refacc.N3072)) % refacc.N3072
+    return srv
+
+
+def alter(v, op):
+    """one alteration of a field value; the result always differs from v unless v is empty and the op needs a byte"""
+    v = bytes(v)
+    if op[0] == "flip":
+        if not v:
+            return v
+        k = op[1] % (8 * len(v))
+        b = bytearray(v)
+        b[k // 8] ^= 1 << (k % 8)
+        return bytes(b)
+    if op[0] == "set":
+        if not v:
+            return v
+        i = op[1] % len(v)
+        b = bytearray(v)
+        b[i] = op[2] if op[2] != v[i] else op[2] ^ 0x01
+        return bytes(b)
+    if op[0] == "trunc":
+        return v[:-1]
+    if op[0] == "append":
+        return v + bytes([op[1]])
+    if op[0] == "empty":
+        return b""
+    raise ValueError(op)
+
+
+class Peer:
+    """a conformant pair-setup accessory (HAP 5.6, harness.refacc) that keeps a transcript; optionally ONE field of ONE of
+    its replies is altered: mutation = {"msg": 2|4|6, "where": "outer"|"inner", "field": tlv type, "op": [...]}"""
+
+    def __init__(self, pin, ident, rb, salt, mutation=None, reverse=False):
+        self.pin, self.id, self.rb, self.salt, self.mutation, self.reverse = pin, ident, rb, salt, mutation, reverse
+        self.requests, self.replies = [], []
+        self.accepted = None  # (controller id, controller long-term public key) accepted in M5
+        self.applied = False
+        self.srv = None
+        self.proved = False
+
+    def _mutate(self, msg, where, items):
+        m = self.mutation
+        if not m or self.applied or m["msg"] != msg or m.get("where", "outer") != where:
+            return items
+        f, op = int(m["field"]), m["op"]
+        if op[0] == "add":
+            self.applied = True
+            extra = (f, bytes.fromhex(op[1]))
+            return [extra] + items if op[2] else items + [extra]
+        out = []
+        for t, v in items:
+            if t == f and not self.applied:
+                if op[0] == "remove":
+                    self.applied = True
+                    continue
+                v2 = alter(v, op)
+                self.applied = v2 != v
+                out.append((t, v2))
+            else:
+                out.append((t, v))
+        return out
+
+    def handle(self, items):
+        req = [(int(k), bytes(v)) for k, v in items]
+        self.requests.append(req)
+        d = dict(req)
+        st = d.get(6)
+        msg = None
+        reply = [(6, b"\x02"), (7, b"\x01")]
+        if st == b"\x01":
+            self.srv = _srp_server(self.pin, self.salt, int.from_bytes(self.rb(16), "big") | 1)
+            self.proved = False
+            reply, msg = [(6, b"\x02"), (3, refacc.PAD(self.srv.B)), (2, self.salt)], 2
+        elif st == b"\x03" and self.srv is not None and 3 in d:
+            self.srv.on_A(d[3])
+            if d.get(4) != self.srv.M1:
+                reply = [(6, b"\x04"), (7, b"\x02")]
+            else:
+                self.proved = True
+                reply, msg = [(6, b"\x04"), (4, self.srv.M2)], 4
+        elif st == b"\x05" and self.proved and 5 in d:
+            K = self.srv.K
+            ekey = refacc.hk(K, b"Pair-Setup-Encrypt-Salt", b"Pair-Setup-Encrypt-Info")
+            try:
+                sub = refacc.untlv(ChaCha20Poly1305(ekey).decrypt(b"\0\0\0\0PS-Msg05", d[5], b""))
+                cx = refacc.hk(K, b"Pair-Setup-Controller-Sign-Salt", b"Pair-Setup-Controller-Sign-Info")
+                ed25519.Ed25519PublicKey.from_public_bytes(sub[3]).verify(sub[10], cx + sub[1] + sub[3])
+                ok = True
+            except Exception:  # noqa: BLE001
+                ok = False
+            if not ok:
+                reply = [(6, b"\x06"), (7, b"\x02")]
+            else:
+                self.accepted = (sub[1].decode("utf-8", "replace"), sub[3])
+                ax = refacc.hk(K, b"Pair-Setup-Accessory-Sign-Salt", b"Pair-Setup-Accessory-Sign-Info")
+                sig = self.id.acc_ltsk.sign(ax + self.id.acc_id + self.id.acc_ltpk)
+                inner = self._mutate(6, "inner", [(1, self.id.acc_id), (3, self.id.acc_ltpk), (10, sig)])
+                enc = ChaCha20Poly1305(ekey).encrypt(b"\0\0\0\0PS-Msg06", refacc.tlv(inner), b"")
+                reply, msg = [(6, b"\x06"), (5, enc)], 6
+        if msg is not None:
+            if self.reverse:
+                reply = reply[::-1]
+            reply = self._mutate(msg, "outer", reply)
+        self.replies.append(reply)
+        return reply
+
+
+class Replayer:
+    """knows neither the setup code nor any key: answers the k-th request with the k-th reply recorded in an earlier exchange"""
+
+    accepted = None
+    applied = True
+
+    def __init__(self, recorded):
+        self.recorded = [[(int(k), bytes(v)) for k, v in r] for r in recorded]
+        self.requests, self.replies = [], []
+
+    def handle(self, items):
+        self.requests.append([(int(k), bytes(v)) for k, v in items])
+        k = len(self.requests) - 1
+        reply = self.recorded[k] if k < len(self.recorded) else [(6, bytes([min(2 * k + 2, 255)])), (7, b"\x01")]
+        self.replies.append(reply)
+        return reply
+
+
+def _drive(sm, peer, wire):
+    """what every transport does with a pairing generator"""
+    from aiohomekit.protocol.tlv import TLV
+    request, expected = sm.send(None)
+    while True:
+        reply = peer.handle(request)
+        if wire:
+            # HomeKitConnection.post_tlv / CoAP do_pair_setup*: bytes on the wire, decoded with the list the generator yielded
+            reply = TLV.decode_bytes(TLV.encode_list(L(reply)), expected=expected)
+        else:
+            reply = L(reply)
+        try:
+            request, expected = sm.send(reply)
+        except StopIteration as s:
+            return s.value
+
+
+class _Env:
+    def __init__(self):
+        from harness import simnet
+        import asyncio
+        self.loop = simnet.VLoop()
+        asyncio.set_event_loop(self.loop)
+
+    def close(self):
+        import asyncio
+        try:
+            self.loop.close()
+        finally:
+            asyncio.set_event_loop(None)
+
+
+def _controller():
+    from unittest.mock import MagicMock
+    from aiohomekit.characteristic_cache import CharacteristicCacheMemory
+    controller = MagicMock()
+    controller._char_cache = CharacteristicCacheMemory()
+    controller.pairings = {}
+    return controller
+
+
+async def _ip_attempt(env, peer, pin, controller, alias):
+    """IpDiscovery.async_start_pairing / finish_pairing with its own HomeKitConnection; the peer is an HTTP server on the in-memory network"""
+    import re
+    from harness import rcsim, simnet
+    from aiohomekit.controller.ip.discovery import IpDiscovery
+    loop = env.loop
+    net = simnet.Net(loop)
+    bufs = {}
+
+    def handler(t, data):
+        buf = bufs.get(t, b"") + data
+        while b"\r\n\r\n" in buf:
+            head, rest = buf.split(b"\r\n\r\n", 1)
+            m = re.search(rb"(?i)content-length:\s*(\d+)", head)
+            n = int(m.group(1)) if m else 0
+            if len(rest) < n:
+                break
+            body, buf = rest[:n], rest[n:]
+            reply = refacc.tlv(peer.handle(list(refacc.untlv(body).items())))
+            loop.call_soon(t.feed, b"HTTP/1.1 200 OK\r\nContent-Type: application/pairing+tlv8\r\nContent-Length: %d\r\n\r\n" % len(reply) + reply)
+        bufs[t] = buf
+    net.handler = handler
+    with net.patched():
+        d = IpDiscovery(controller, rcsim.description([1]))
+        try:
+            finish = await d.async_start_pairing(alias)
+            obj = await finish(pin)
+            return dict(obj.pairing_data)
+        finally:
+            try:
+                await d.close()
+            except Exception:  # noqa: BLE001
+                pass
+
+
+async def _coap_attempt(env, peer, pin, controller, alias):
+    """CoAPDiscovery.async_start_pairing / finish_pairing (do_pair_setup, do_pair_setup_finish); aiocoap's client context is the network"""
+    from harness import rcsim
+    import aiohomekit.controller.coap.connection as coapc
+    from aiohomekit.controller.coap.discovery import CoAPDiscovery
+    loop = env.loop
+
+    class Resp:
+        def __init__(self, payload):
+            self.payload = payload
+
+    class Req:
+        def __init__(self, msg):
+            f = loop.create_future()
+            try:
+                f.set_result(Resp(refacc.tlv(peer.handle(list(refacc.untlv(bytes(msg.payload)).items())))))
+            except Exception as e:  # noqa: BLE001
+                f.set_exception(e)
+            self.response = f
+
+    class Client:
+        def request(self, msg):
+            return Req(msg)
+
+        async def shutdown(self):
+            return None
+
+    class FakeContext:
+        @staticmethod
+        async def create_client_context():
+            return Client()
+    import dataclasses
+    # CoAP accessories are Thread devices: the connection addresses them as [IPv6 literal]:port
+    description = dataclasses.replace(rcsim.description([1]), address="fd00::1:2", addresses=["fd00::1:2"], port=5683, type="_hap._udp.local.")
+    with mock.patch.object(coapc, "Context", FakeContext):
+        d = CoAPDiscovery(controller, description)
+        finish = await d.async_start_pairing(alias)
+        obj = await finish(pin)
+        return dict(obj.pairing_data)
+
+
+class _Gatt:
+    """the radio: one HAP-BLE pairing characteristic served by `peer`.  Requests arrive as PDU fragments of the MTU, the
+    response is read back in fragments; replies longer than `chunk` travel as FragmentData.../FragmentLast, each
+    acknowledged by the controller, as BLE accessories deliver M2"""
+    address = "AA:BB:CC:DD:EE:FF"
+
+    class _Handle:
+        properties = ["read", "write"]
+
+    def __init__(self, peer, fs, chunk):
+        self.peer, self.fs, self.chunk = peer, fs, chunk
+        self.buf, self.need, self.tid = b"", 0, 0
+        self.reads, self.pending = [], []
+
+    async def get_characteristic(self, *a):
+        return self._Handle()
+
+    async def get_characteristic_iid(self, char):
+        return 0x22
+
+    def determine_fragment_size(self, overhead, handle):
+        return self.fs - overhead
+
+    async def write_gatt_char(self, handle, data, response):
+        import struct
+        data = bytes(data)
+        if data[0] & 0x80:
+            self.buf += data[2:]
+        else:
+            self.tid = data[2]
+            self.need = struct.unpack("<H", data[5:7])[0] if len(data) >= 7 else 0
+            self.buf = data[7:]
+        if len(self.buf) >= self.need:
+            self._respond(struct)
+
+    def _respond(self, struct):
+        value = refacc.untlv(self.buf).get(1, b"")
+        if value == b"\x0c\x00" and self.pending:
+            payload = self.pending.pop(0)
+        else:
+            reply = refacc.tlv(self.peer.handle(list(refacc.untlv(value).items())))
+            if self.chunk and len(reply) > self.chunk:
+                parts = [reply[i:i + self.chunk] for i in range(0, len(reply), self.chunk)]
+                self.pending = [refacc.tlv([(0x0C, c)]) for c in parts[:-1]] + [refacc.tlv([(0x0D, parts[-1])])]
+                payload = self.pending.pop(0)
+            else:
+                payload = reply
+        body = refacc.tlv([(1, payload)])
+        pdu = bytes([0x02, self.tid, 0]) + struct.pack("<H", len(body)) + body
+        self.reads = [pdu[:self.fs]] + [bytes([0x82, self.tid]) + pdu[i:i + self.fs - 2] for i in range(self.fs, len(pdu), self.fs - 2)]
+
+    async def read_gatt_char(self, handle):
+        return self.reads.pop(0)
+
+
+async def _ble_attempt(env, peer, pin, fs, chunk):
+    """the BLE way: drive_pairing_state_machine on the pair-setup characteristic, part 1 then part 2, as BleDiscovery does"""
+    import uuid
+    import aiohomekit.controller.ble.client as bleclient
+    from aiohomekit.model.characteristics import CharacteristicsTypes
+    gatt = _Gatt(peer, fs, chunk)
+    salt, pub = await bleclient.drive_pairing_state_machine(gatt, CharacteristicsTypes.PAIR_SETUP, P.perform_pair_setup_part1(with_auth=False))
+    return await bleclient.drive_pairing_state_machine(gatt, CharacteristicsTypes.PAIR_SETUP, P.perform_pair_setup_part2(pin, str(uuid.uuid4()), salt, pub))
+
+
+def mutation_kind(m):
+    return f"m{m['msg']}{'i' if m.get('where') == 'inner' else ''}-{FIELD.get(int(m['field']), m['field'])}-{m['op'][0]}"
+
+
+def run_history(ctx, env, hist, rb):
+    """run one history; returns the problems found as (signature, what, index of the step)"""
+    import asyncio
+    entry, pin, acc_id = hist["entry"], hist["pin"], hist["acc_id"].encode()
+    salt = bytes.fromhex(hist["salt"])
+    controller = _controller()
+    problems, recorded, seen_A = [], {}, []
+    for i, st in enumerate(hist["steps"]):
+        kind = st["peer"]
+        ident = refacc.Identity(rb, acc_id=acc_id)  # a reset accessory keeps its identifier and gets a new key pair
+        if kind == "replay":
+            peer = Replayer(recorded.get(st["of"], []))
+        elif kind == "wrong-code":
+            peer = Peer(next(p for p in PINS if p != pin), ident, rb, salt, reverse=st.get("reverse", False))
+        elif kind == "mutate":
+            peer = Peer(pin, ident, rb, salt, mutation=st["mutation"], reverse=st.get("reverse", False))
+            kind = mutation_kind(st["mutation"])
+        else:
+            peer = Peer(pin, ident, rb, salt, reverse=st.get("reverse", False))
+        ios_id = st.get("ios_id", "ctl-uuid")
+        rec, exc = None, None
+        try:
+            if entry in ("gen-list", "gen-wire"):
+                s_, pk_ = _drive(P.perform_pair_setup_part1(st.get("with_auth", True)), peer, entry == "gen-wire")
+                rec = _drive(P.perform_pair_setup_part2(pin, ios_id, s_, pk_), peer, entry == "gen-wire")
+            elif entry == "ip":
+                rec = env.loop.run_until_complete(_ip_attempt(env, peer, pin, controller, "hall"))
+            elif entry == "coap":
+                rec = env.loop.run_until_complete(_coap_attempt(env, peer, pin, controller, "hall"))
+            else:
+                rec = env.loop.run_until_complete(_ble_attempt(env, peer, pin, st.get("fs", 512), st.get("chunk", 0)))
+        except (Exception, asyncio.CancelledError) as e:  # noqa: BLE001
+            exc = e
+        ctx.evaluations += 1
+        recorded[i] = peer.replies
+        cls = "ok" if exc is None else "err:" + type(exc).__name__
+        ctx.nontrivial.add(("history", entry, kind, cls))
+        ctx.dist[f"history:{entry}:{kind}:{cls}"] += 1
+        where = f"step {i + 1} of {len(hist['steps'])} ({kind}, {entry}, code {pin})"
+        # freshness, seen from the accessory's side: the public value A of M3
+        for req in peer.requests:
+            d = dict(req)
+            if d.get(6) == b"\x03" and 3 in d:
+                if d[3] in seen_A:
+                    problems.append(("setup/ephemeral-reused", f"{where}: the controller sent the SRP public value A={hx(d[3][:8])}... of exchange {seen_A.index(d[3]) + 1} of this process again - "
+                                     "its freshness is the only thing that binds the accessory's M4 proof and M6 to the current exchange", i))
+                seen_A.append(d[3])
+        honest = kind == "honest" or (st["peer"] == "mutate" and not peer.applied)
+        if honest:
+            if exc is not None or not isinstance(rec, dict):
+                problems.append((f"setup/{kind}/{entry}/rejected-genuine", f"{where}: pairing a conformant accessory failed with {type(exc).__name__}: {str(exc)[:80]}", i))
+            else:
+                bad = []
+                if rec.get("AccessoryPairingID") != acc_id.decode() or rec.get("AccessoryLTPK") != ident.acc_ltpk.hex():
+                    bad.append("the accessory identity returned is not the one authenticated in this exchange")
+                if peer.accepted is None or rec.get("iOSPairingId") != peer.accepted[0] or rec.get("iOSDeviceLTPK") != peer.accepted[1].hex():
+                    bad.append("the controller identity returned is not the one this accessory accepted")
+                else:
+                    try:
+                        sk = ed25519.Ed25519PrivateKey.from_private_bytes(bytes.fromhex(rec["iOSDeviceLTSK"]))
+                        if sk.public_key().public_bytes(**refacc.RAW) != peer.accepted[1]:
+                            bad.append("the controller's private key does not match the public key the accessory accepted")
+                    except Exception:  # noqa: BLE001
+                        bad.append("the controller's private key is unusable")
+                if bad:
+                    problems.append((f"setup/{kind}/{entry}/record", f"{where}: " + "; ".join(bad), i))
+        else:
+            if exc is None:
+                what = {"replay": f"the peer only played back the replies of exchange {st.get('of', 0) + 1} and never proved knowledge of the setup code in this exchange",
+                        "wrong-code": "the accessory was programmed with another setup code"}.get(kind, f"reply M{st.get('mutation', {}).get('msg')} was altered ({st.get('mutation')})")
+                problems.append((f"setup/{kind}/{entry}/returned", f"{where}: pairing data was returned ({str(rec)[:60]}...) although {what}", i))
+            elif type(exc).__name__ not in CLS:
+                problems.append((f"setup/{kind}/{entry}/{type(exc).__name__}", f"{where}: unexpected exception class {type(exc).__name__}: {str(exc)[:80]}", i))
+        if problems:
+            break  # the history up to this step is the failing input
+    return problems
+
+
+def state_ops(genuine, rng, nbytes, nlen):
+    """alterations of a one-byte State value: every single-bit flip, a sample of other byte values, length changes"""
+    ops = [["flip", k] for k in range(8)]
+    pool = [0x00, 0xFF, genuine | 0x80] + [x for x in range(1, 8) if x != genuine] + [rng.randrange(256) for _ in range(4)]
+    pool = [x for x in dict.fromkeys(pool) if x != genuine and bin(x ^ genuine).count("1") != 1]
+    if nbytes >= 255:
+        pool = [x for x in range(256) if x != genuine and bin(x ^ genuine).count("1") != 1]
+    ops += [["set", 0, x] for x in rng.sample(pool, min(nbytes, len(pool)))]
+    ops += rng.sample([["empty"], ["append", 0], ["append", genuine]], min(nlen, 3))
+    return ops
+
+
+def field_mutation(rng):
+    """one alteration of one field of one reply (State excluded: state_ops)"""
+    msg, where, field = rng.choice([(2, "outer", 2), (2, "outer", 3), (4, "outer", 4), (6, "outer", 5), (6, "inner", 1), (6, "inner", 3), (6, "inner", 10)])
+    op = rng.choice([["flip", rng.randrange(1 << 16)], ["flip", rng.randrange(8)], ["set", rng.randrange(1 << 12), rng.randrange(256)], ["trunc"], ["append", rng.randrange(256)], ["empty"], ["remove"]])
+    return {"msg": msg, "where": where, "field": field, "op": op}
+
+
+def history_level(ctx, rng, rb):
+    env = _Env()
+    salts = {p: [rb(16), rb(16)] for p in PINS}
+
+    def hist(entry, steps):
+        pin = rng.choice(PINS)
+        for st in steps:
+            st.setdefault("reverse", rng.random() < 0.3)
+            if entry.startswith("gen"):
+                st.setdefault("ios_id", rng.choice(["ctl-uuid", "7d0ca5d1-1d9c-4d29-b2a0-6c8e4f1e0001"]))
+                st.setdefault("with_auth", rng.random() < 0.5)
+            if entry == "ble-gatt":
+                st.setdefault("fs", rng.choice([64, 185, 512]))
+                st.setdefault("chunk", rng.choice([0, 0, 120, 255]))
+        return {"stream": "history", "entry": entry, "pin": pin, "acc_id": rng.choice(ACC_IDS), "salt": hx(rng.choice(salts[pin])), "steps": steps}
+
+    def go(h):
+        for sig, what, i in run_history(ctx, env, h, rb):
+            ctx.violation(sig, what, dict(h, steps=h["steps"][:i + 1]))
+
+    try:
+        # (a) the State item of M2, M4 and M6: every single-bit flip, sampled byte values, length changes - handed over as a
+        #     list and as the IP/CoAP transports decode it
+        for msg in (2, 4, 6):
+            for op in state_ops(msg, rng, ctx.budget(3, 255), ctx.budget(1, 3)):
+                for entry in ("gen-list", "gen-wire"):
+                    go(hist(entry, [{"peer": "mutate", "mutation": {"msg": msg, "where": "outer", "field": 6, "op": op}}]))
+        #     ... and through the transports' own code
+        for entry in ("ip", "coap", "ble-gatt"):
+            for msg in (2, 4, 6):
+                for op in rng.sample(state_ops(msg, rng, 3, 3), ctx.budget(1, 8)):
+                    go(hist(entry, [{"peer": "mutate", "mutation": {"msg": msg, "where": "outer", "field": 6, "op": op}}]))
+        # (b) every other field, outer and inside M6; an Error item added to an otherwise genuine reply
+        for _ in range(ctx.budget(10, 600)):
+            go(hist(rng.choice(ENTRIES), [{"peer": "mutate", "mutation": field_mutation(rng)}]))
+        for msg in (2, 4, 6):
+            for entry in ["gen-wire"] + [rng.choice(ENTRIES) for _ in range(ctx.budget(1, 20))]:
+                go(hist(entry, [{"peer": "mutate", "mutation": {"msg": msg, "where": "outer", "field": 7, "op": ["add", hx(bytes([rng.randrange(1, 8)])), rng.random() < 0.5]}}]))
+        # (c) several pair-setups in one process: an impostor plays back an earlier exchange byte for byte
+        plan = list(ENTRIES) + [rng.choice(ENTRIES) for _ in range(ctx.budget(1, 60))]
+        for entry in plan:
+            steps = [{"peer": "honest"}]
+            for _ in range(rng.choice([1, 1, 2, 3])):
+                r = rng.random()
+                if r < 0.5:
+                    steps.append({"peer": "replay", "of": rng.choice([j for j, s_ in enumerate(steps) if s_["peer"] == "honest"])})
+                elif r < 0.7:
+                    steps.append({"peer": "honest"})
+                elif r < 0.85:
+                    steps.append({"peer": "wrong-code"})
+                else:
+                    steps.append({"peer": "replay", "of": rng.randrange(len(steps))})
+            if not any(s_["peer"] == "replay" and steps[s_["of"]]["peer"] == "honest" for s_ in steps):
+                steps.append({"peer": "replay", "of": 0})
+            if rng.random() < 0.5:
+                steps.append({"peer": "honest"})
+            go(hist(entry, steps))
+        # (d) two pair-setups alive at the same time
+        for _ in range(ctx.budget(1, 30)):
+            case = {"stream": "interleave", "wire": rng.random() < 0.5, "pins": [rng.choice(PINS), rng.choice(PINS)], "salt": hx(rb(16)),
+                    "schedule": [rng.randrange(2) for _ in range(16)]}
+            for sig, what in run_interleaved(ctx, case, rb):
+                ctx.violation(sig, what, case)
+    finally:
+        env.close()
+
+
+def run_interleaved(ctx, case, rb):
+    """two pairings with two different conformant accessories advance in the order given by the schedule; each must end
+    with the identity of its own accessory"""
+    from aiohomekit.protocol.tlv import TLV
+    wire = case["wire"]
+
+    def session(peer, pin, ios_id):
+        rec = None
+        for sm_of in (lambda: P.perform_pair_setup_part1(True), lambda: P.perform_pair_setup_part2(pin, ios_id, *rec)):
+            sm = sm_of()
+            request, expected = sm.send(None)
+            while True:
+                yield
+                reply = peer.handle(request)
+                reply = TLV.decode_bytes(TLV.encode_list(L(reply)), expected=expected) if wire else L(reply)
+                yield
+                try:
+                    request, expected = sm.send(reply)
+                except StopIteration as s:
+                    rec = s.value
+                    break
+        return rec
+
+    salt = bytes.fromhex(case["salt"])
+    idents = [refacc.Identity(rb, acc_id=a.encode()) for a in ACC_IDS[:2]]
+    peers = [Peer(case["pins"][k], idents[k], rb, salt) for k in range(2)]
+    runs = [session(peers[k], case["pins"][k], f"ctl-{k}") for k in range(2)]
+    result = [None, None]
+    order = list(case["schedule"])
+    problems = []
+    while any(r is not None for r in runs):
+        k = order.pop(0) if order else next(j for j, r in enumerate(runs) if r is not None)
+        if runs[k] is None:
+            continue
+        try:
+            next(runs[k])
+        except StopIteration as s:
+            result[k], runs[k] = s.value, None
+        except Exception as e:  # noqa: BLE001
+            result[k], runs[k] = e, None
+    As = []
+    for k in range(2):
+        ctx.evaluations += 1
+        rec = result[k]
+        ok = isinstance(rec, dict)
+        ctx.dist[f"interleave:{'ok' if ok else 'err:' + type(rec).__name__}"] += 1
+        ctx.nontrivial.add(("interleave", wire, ok))
+        if not ok:
+            problems.append(("setup/interleave/rejected-genuine", f"pairing {k + 1} of two interleaved pair-setups (schedule {case['schedule']}) failed with {type(rec).__name__}: {str(rec)[:80]}"))
+            continue
+        p = peers[k]
+        if (rec.get("AccessoryPairingID") != idents[k].acc_id.decode() or rec.get("AccessoryLTPK") != idents[k].acc_ltpk.hex() or p.accepted is None
+                or rec.get("iOSPairingId") != p.accepted[0] or rec.get("iOSDeviceLTPK") != p.accepted[1].hex()
+                or ed25519.Ed25519PrivateKey.from_private_bytes(bytes.fromhex(rec["iOSDeviceLTSK"])).public_key().public_bytes(**refacc.RAW) != p.accepted[1]):
+            problems.append(("setup/interleave/record", f"pairing {k + 1} of two interleaved pair-setups (schedule {case['schedule']}) returned a record that is not the identity its own accessory presented / accepted"))
+        As += [dict(r)[3] for r in p.requests if dict(r).get(6) == b"\x03" and 3 in dict(r)]
+    if len(set(As)) != len(As):
+        problems.append(("setup/ephemeral-reused", "two pair-setups alive at the same time sent the same SRP public value A"))
+    return problems
+
+
 def replay(ctx, driver, c):
-    return None
+    if not isinstance(c, dict) or c.get("stream") not in ("history", "interleave"):
+        return None
+    rb = lambda n: bytes(ctx.rng.randrange(256) for _ in range(n))  # noqa: E731
+    if c["stream"] == "interleave":
+        return [list(p) for p in run_interleaved(ctx, c, rb)] or None
+    env = _Env()
+    try:
+        return [list(p) for p in run_history(ctx, env, c, rb)] or None
+    finally:
+        env.close()
